@@ -182,8 +182,8 @@ K("C06.line_predicates", ["C06"], LINE, "check_line_predicates_translation_invar
   "Line::is_horizontal/is_vertical/is_aabb_parallel/is_aabb_perpendicular/octant/slope/has_endpoint",
   "p(translate(l, d)) = p(l) for lattice lines and cell offsets (quick: < 16 cells, thorough: < 64 cells)", timeout=300, timeout_thorough=1800)
 K("C06.line_slope", ["C06"], LINE, "check_line_slope_translation_invariant", "Line::slope",
-  "Line::slope (the real function) is bit-identical after a translation by whole cells on the lattice (so angle and heading are)",
-  timeout=600, timeout_thorough=3600)
+  "Line::slope (the real function) is bit-identical after a translation by whole cells on the 16-cell lattice, in both tiers (so angle and heading are)",
+  timeout=600, timeout_thorough=1800)
 K("C06.line_octant", ["C06"], LINE, "check_line_octant_slope_translation_invariant", "Line::octant",
   "translation invariant on the lattice (quick: < 16 cells, thorough: < 64 cells)", timeout=300, timeout_thorough=1800)
 K("C01.line_heading_total", ["C01", "C14"], LINE, "check_line_heading_total", "Line::line_angle / heading / Direction::threshold_length",
